@@ -62,8 +62,15 @@ class FamilyWorld(BufWorld):
         for i in self.roots():
             root = self.handles[i].real
             stack = [(root, ())]
+            seen = {}
             while stack:
                 node, path = stack.pop()
+                if id(node) in seen:
+                    # every position owns its node; a node reachable twice (or a cycle) means a
+                    # container was adopted instead of converted
+                    raise Mismatch("node_reachable_at_two_positions", step=s, path=list(path),
+                                   first_path=list(seen[id(node)]))
+                seen[id(node)] = path
                 if type(node) not in (dc, lc):
                     raise Mismatch("wrong_family", step=s, path=list(path), got=type(node).__name__,
                                    expected=[dc.__name__, lc.__name__])
@@ -286,9 +293,12 @@ def run_attr_case(case):
                 raise Mismatch("internals_disturbed", step=n, key=k, op=op, syn=syn,
                                changed=sorted(set(after_vars.items()) ^ set(before_vars.items()))[:4])
             _check_vars(root, cls, prot)
-            got = root()
-            if got != model:
-                raise Mismatch("content", step=n, key=k, op=op, syn=syn, got=got, expected=model)
+            if not other:
+                # (after a write through the OTHER object nothing is loaded through the user's
+                # tree, so that the next access through a retained child is the first one)
+                got = root()
+                if got != model:
+                    raise Mismatch("content", step=n, key=k, op=op, syn=syn, got=got, expected=model)
             disk = res.read()
             if disk != model:
                 raise Mismatch("resource", step=n, key=k, op=op, syn=syn, got=disk, expected=model)
@@ -395,6 +405,17 @@ def _draw_attr_case(draw, cname):
         for s_ in steps:
             if s_["op"] in ("set", "del") and draw(st.integers(0, 2)) == 0:
                 s_["via"] = "other"
+        if draw(st.booleans()):
+            # scripted: read through a retained child, the other object changes / adds / removes
+            # that key, read again through the SAME retained child (attribute and item syntax)
+            P = draw(st.sampled_from([p_ for p_ in NODE_PATHS if p_]))
+            k = draw(st.sampled_from(["a", "b", "z", "x1", "foo", "new"]))
+            val = enc(draw(st.sampled_from([5, "t", None, {"n": [2]}])))
+            syn2 = draw(st.sampled_from(["attr", "attr", "item"]))
+            steps += [{"path": enc(list(P)), "k": k, "op": "get", "syn": draw(st.sampled_from(["attr", "item"])), "v": val},
+                      {"path": enc(list(P)), "k": k, "op": draw(st.sampled_from(["set", "set", "del"])), "syn": "item",
+                       "v": val, "via": "other"},
+                      {"path": enc(list(P)), "k": k, "op": "get", "syn": syn2, "v": val}]
     return {"property": ID, "engine": "c18attr", "class": cname, "steps": steps,
             "retarget": draw(st.booleans()), "retain": retain}
 
@@ -413,8 +434,12 @@ SIBLINGS = [("MemoryBufferedJSONDict", "MemoryBufferedJSONAttrDict"),
 def _family_ok(obj, ci, where):
     dc, lc = ci.dict_cls, ci.list_cls
     stack = [(obj, ())]
+    seen = set()
     while stack:
         node, path = stack.pop()
+        if id(node) in seen:
+            raise Mismatch("node_reachable_at_two_positions", where=where, path=list(path))
+        seen.add(id(node))
         if type(node) not in (dc, lc):
             raise Mismatch("wrong_family", where=where, root=type(obj).__name__, path=list(path),
                            got=type(node).__name__)
